@@ -1,0 +1,25 @@
+// Copyright 2015 Comcast Cable Communications Management, LLC
+//
+// Licensed under the Apache License, Version 2.0 (the "License");
+// you may not use this file except in compliance with the License.
+// You may obtain a copy of the License at
+//
+//     http://www.apache.org/licenses/LICENSE-2.0
+//
+// Unless required by applicable law or agreed to in writing, software
+// distributed under the License is distributed on an "AS IS" BASIS,
+// WITHOUT WARRANTIES OR CONDITIONS OF ANY KIND, either express or implied.
+// See the License for the specific language governing permissions and
+// limitations under the License.
+//
+// End Copyright
+
+//go:build !verif
+// +build !verif
+
+package core
+
+// VerifYield marks a scheduling-relevant point (just before a lock is
+// taken, just after it is released).  It does nothing unless the
+// package is built with the 'verif' tag; see verif_on.go.
+func VerifYield(point string) {}
